@@ -323,7 +323,104 @@ def po3(facts, rep):
     rep.floor(rule, 'obligations enumerated', total, 15)
 
 
+def ed2(facts, rep):
+    rule = 'ED-2'
+    rep.rule(rule, 'short-read discipline: on the IndexedReader paths the underlying reader is only consumed through '
+                   'fill_buf/consume or read_exact; a plain Read::read whose byte count is not used would silently accept '
+                   'short reads and truncated files')
+    roots = []
+    for nm in ('read', 'read_iter'):
+        roots += facts.methods(IR, nm)
+    roots += facts.methods('io::fasta::IndexedReaderIterator', 'next', 'Iterator')
+    reach = facts.reachable_bodies(roots)
+    from .eng_ri import uses_of_locals
+    n = 0
+    for k in sorted(reach):
+        b = facts.bodies[k]
+        if not b.path.startswith(('io::fasta', '<io::fasta')):
+            continue
+        rep.analysed_body(b)
+        for bb, t in b.calls():
+            info = call_info(t)
+            if not info:
+                continue
+            fn = info['fn']
+            if fn.endswith(('io::Read::read', 'io::Read::read_to_end', 'io::Read::read_vectored')):
+                n += 1
+                key = '%s|read-count-used' % b.path
+                # follow: dest -> Try::branch -> Continue payload -> uses
+                uses = uses_of_locals(b)
+
+                def value_used(l, depth=0):
+                    """is the value held in local l consumed by anything other than copies into unused locals?"""
+                    if depth > 8:
+                        return True
+                    for (kind, ubb, x) in uses.get(l, []):
+                        if kind == 'term':
+                            if b.term(ubb)['k'] == 'drop':
+                                continue
+                            return True
+                        st = b.stmts(ubb)[x]
+                        if st['k'] == 'assign' and 'pj' not in st['p'] and st['r']['k'] == 'use':
+                            if value_used(st['p']['l'], depth + 1):
+                                return True
+                            continue
+                        return True
+                    return False
+                used = False
+                # dest -> Try::branch -> payload of the Continue variant
+                cur = [t['dest']['l']]
+                seen = set()
+                while cur:
+                    l = cur.pop()
+                    if l in seen:
+                        continue
+                    seen.add(l)
+                    for (kind, ubb, x) in uses.get(l, []):
+                        if kind == 'term':
+                            tt = b.term(ubb)
+                            if tt['k'] == 'call' and call_info(tt) and call_info(tt)['fn'].endswith('Try::branch'):
+                                cur.append(tt['dest']['l'])
+                            elif tt['k'] in ('switch', 'drop'):
+                                continue
+                            elif tt['k'] == 'call' and call_info(tt) and call_info(tt)['fn'].rsplit('::', 1)[-1] in (
+                                    'unwrap', 'expect', 'unwrap_or', 'unwrap_or_default', 'map', 'and_then'):
+                                if 'pj' not in tt['dest'] and value_used(tt['dest']['l']):
+                                    used = True
+                            else:
+                                used = True
+                        else:
+                            st = b.stmts(ubb)[x]
+                            if st['k'] != 'assign' or st['r']['k'] == 'disc':
+                                continue
+                            src = st['r'].get('o', {}).get('c') or st['r'].get('o', {}).get('m') or st['r'].get('p')
+                            dcs = [el.get('dc') for el in (src or {}).get('pj', []) if isinstance(el, dict) and 'dc' in el]
+                            if 'Break' in dcs or 'Err' in dcs:
+                                continue
+                            if 'Continue' in dcs or 'Ok' in dcs:
+                                if 'pj' not in st['p'] and value_used(st['p']['l']):
+                                    used = True
+                                continue
+                            if 'pj' not in st['p']:
+                                cur.append(st['p']['l'])
+                if used:
+                    rep.ok(rule, key, b.loc(bb), 'byte count inspected')
+                else:
+                    rep.bad(rule, key, b.loc(bb), '%s is called and the number of bytes actually read is ignored: a short read '
+                                                  'or a truncated file yields Ok with missing data' % fn.rsplit('::', 2)[-2:][0])
+    key = 'IndexedReader|reads-through-fill_buf'
+    fb = 0
+    for k in reach:
+        b = facts.bodies[k]
+        fb += sum(1 for _bb, t in b.calls() if call_info(t) and call_info(t)['fn'].endswith('BufRead::fill_buf'))
+    if fb >= 1:
+        rep.ok(rule, key, '', '%d fill_buf site(s); %d plain read site(s)' % (fb, n))
+    else:
+        rep.bad(rule, key, '', 'the buffered fill_buf/consume protocol is no longer used')
+
+
 def run(facts, rep, ctx):
+    ed2(facts, rep)
     gd4(facts, rep)
     ts6(facts, rep)
     po3(facts, rep)
